@@ -180,10 +180,11 @@ def stage_lines(lines):
 
 def fields(reply):
     """(out, res) of a machine reply line, or the whole line if it is not an OK line"""
-    m = re.match(r'^OK out=(\[[^\]]*\]) res=(.*?) steps=', reply)
+    m = re.match(r'^OK out=(\[[^\]]*\]) res=(.*?)( steps=.*)?$', reply)
     if not m: return reply
     res = m.group(2)
     res = re.sub(r'@\d+$', '', res)          # line numbers differ between backends
+    res = {'stuck:divByZero': 'fault:div-by-zero', 'stuck:overflow': 'fault:div-overflow'}.get(res, res)
     return f'out={m.group(1)} res={res}'
 
 def main():
